@@ -9,7 +9,7 @@ from ..core import pmap
 from ..pe import PE, PERaise
 from ..src import load
 
-LEVEL = "proof"
+LEVEL = "other"  # two (quick) / four (thorough) obligations are a recorded known finding (Sdelta N3LO variation), so the run is not a complete proof
 META = {
     "text": "gamma_singlet_qed, gamma_valence_qed and gamma_ns_qed are partially evaluated (harmonic sums as atoms, symbolic Mellin "
             "moment N) for every QCD order 1-4 x QED order 1-2 and nf 3-6 and compared entry by entry, as formulas in N, with the "
@@ -17,7 +17,7 @@ META = {
             "(g, Sigma) rows/columns, the non-singlet plus function in the S_delta diagonal entry and zeros in the photon row/column and "
             "the remaining S_delta entries; the valence grid is diag(ns_V, ns_-); the non-singlet grids carry ns_+/ns_- by mode; "
             "the pure-QED entries [0,1], [1,1], [0,2] of the up/down non-singlet grids are e_u^2 / e_d^2 times ONE common function "
-            "per sector; choose_ns_ad_* are total over the four modes and refuse others.",
+            "per sector; choose_ns_ad_* are total over the four modes and refuse others. At N3LO the comparison is repeated for the older family of parametrisations (use_fhmruvv=False, the only one for nf = 6), with the switch omitted in every call (the siblings' defaults must select the same family) and with unequal N3LO uncertainty settings n3lo_ad_variation = (1,2,1,1,2,1,2): there the Sdelta entry takes the qq setting instead of the ns+ one (known finding).",
     "note": "Identity in N for each configuration (PIT in F_p over the harmonic atoms). The N3LO comparison uses the FHMRUVV "
             "parametrisation (the only one implemented for all nf). Values of the special functions are not involved.",
     "technique": "partial evaluation of sibling dispatchers + polynomial identity testing",
